@@ -14,6 +14,7 @@ RULE = ("(a) well-typed first- and higher-order expressions over generated langu
         "partial application, definitions nested in definitions): expressions are expanded with primitive() and the graph of the expansion (abstractions as "
         "arguments included) is compared with the independent data-flow graph; non-trivial = at least two operator applications; distinct by (language, expression)")
 ASSUMPTIONS = ["spines headed by a source of function type (`- x`) are outside the statement and are not generated here",
+
                "part (b) is implementation vs independent specification only (abstractions are not in the Lean graph model yet)"]
 TRUSTED = ["the independent data-flow construction `flow_graph` below (oracle)", "rdflib.compare.isomorphic"]
 
@@ -27,6 +28,7 @@ def flow_graph(expr, lang):
     g = Graph()
     nodes = {}
     FROM = TF["from"]
+    degenerate = []      # two passed functions of one step whose output is one and the same node
 
     def spine(e):
         args = []
@@ -76,8 +78,11 @@ def flow_graph(expr, lang):
             for j, an in enumerate(argnodes):
                 if j != i and an != lam:
                     g.add((lam, FROM, an))
+                    if internals[j] is not None and an == argnodes[i]:
+                        degenerate.append((i, j))
         return n
     out = build(expr)
+    g.degenerate = bool(degenerate)
     return g, out
 
 
@@ -108,7 +113,7 @@ def const_free(tree, consts):
 
 def run(ctx):
     rng = ctx.rng
-    nlang = 8 if ctx.tier == "quick" else 40
+    nlang = 16 if ctx.tier == "quick" else 50
     for li in range(nlang):
         spec = G.gen_lang(rng, max_base=4, max_ops=2, max_arity=2)
         ops = spec.build()
@@ -160,7 +165,7 @@ def one_case(ctx, li, spec, ops, opdecls, lang, tree, ninputs):
     want, wout = flow_graph(e, lang)
     if not isomorphic(flow_part(g), want):
         ctx.fail(f"`{text}`: the from/internal/via sub-graph ({len(flow_part(g))} triples) is not the data-flow graph of the expression ({len(want)} triples)",
-            {"check": "data-flow", "higher_order": " tf:internal " in gtext}, replay)
+            {"check": "data-flow", "higher_order": " tf:internal " in gtext, "same_node_function_outputs": getattr(want, "degenerate", False)}, replay)
 
 
 def composite_cases(ctx):
@@ -192,7 +197,7 @@ def composite_cases(ctx):
             ctx.count("composite_graphs")
             if not isomorphic(flow_part(g), want):
                 ctx.fail(f"expansion of `{text}` = `{p}`: from/internal/via sub-graph differs from the data-flow graph",
-                    {"check": "data-flow-composite"}, {"family": fam.to_json(), "text": text})
+                    {"check": "data-flow-composite", "same_node_function_outputs": getattr(want, "degenerate", False)}, {"family": fam.to_json(), "text": text})
 
 
 def replay(ctx, payload):
